@@ -60,6 +60,9 @@ TypeOK ==
   /\ row.lab.path \in PathClasses /\ row.lab.pid \in PathClasses /\ row.lab.actor \in Actors
   /\ row.lab.mode \in Modes /\ row.lab.extra \in BOOLEAN /\ row.lab.valid \in BOOLEAN
   /\ row.lab.wire \in {"object", "absent", "nonobject"} /\ row.lab.backend \in {"sqlite", "proxy"}
+  /\ row.lab.conf \in {"all", "nocfg", "nopid", "nodb"}
+  /\ (row.lab.conf = "nocfg" => row.lab.path \in {"none", "foreign", "badtype"})     \* nothing configured: nothing is "the configured path"
+  /\ (row.lab.conf = "nopid" => row.lab.pid \in {"none", "foreign", "badtype"})
 
 A(r, role, mut, rc, p, a) == Allowed(r.tool, role, mut, rc, p, a)
 Here(r) == A(r, r.role, r.mut, r.rc, r.principal, r.actor)
